@@ -104,6 +104,7 @@ type ReqOpts struct {
 	ModuleOnly   bool // with Module: the context always belongs to the other module
 	Earned       bool // providers may hold earned fees
 	NoSlash      bool // slash fraction fixed to 0 (lifecycle-focused scenes; slashing is decided by the C03/C04/C14 scenes)
+	AnyDeposit   bool // available bindings may be below the minimum deposit (after a parameter change)
 	ZeroDep      int  // the first ZeroDep providers' bindings may hold a zero deposit (refunded bindings)
 	MinReq       int  // at least MinReq requests in the batch in flight
 	Vol          bool // consumers may already have a request volume with the providers
@@ -114,9 +115,9 @@ type ReqOpts struct {
 
 // ctxFields draws the lifecycle-independent fields of a context within the CTX invariant.
 func (s *ReqScene) ctxFields(tag string, o ReqOpts) {
-	k, ctx := s.K, s.Ctx
+	// the timeout was within the maximum when it was set; the parameter may have been lowered since
 	timeout := vf.Int64(tag + ".timeout")
-	vf.Assume(vf.And(timeout >= 1, timeout <= k.MaxRequestTimeout(ctx)))
+	vf.Assume(vf.And(timeout >= 1, timeout < maxH))
 	capAmt := vf.Amount(tag + ".cap")
 	vf.Assume(capAmt.IsPositive())
 	th := vf.Uint32(tag + ".threshold")
@@ -167,6 +168,7 @@ func (s *ReqScene) counterRoom() {
 
 func NewReqScene(o ReqOpts) *ReqScene {
 	s := &ReqScene{}
+	noMinAssumed = o.AnyDeposit
 	s.K, s.Ctx = vf.Env()
 	k := s.K
 	s.Ctx, s.H, s.Now = Block(s.Ctx)
